@@ -347,6 +347,7 @@ def run_case(ctx: Ctx, rng, stream, reqs, forced=None):
         case, spec, health, role, cls = forced
         op, tok = spec["op"], spec["tok"]
     rep = {"case": case.to_json(), "spec": spec, "health": health, "role": role, "cls": cls, "stream": stream}
+    count_features(ctx, case)
     out = []
     amount = None if spec.get("amount") is None else D(spec["amount"])
     if op == "borrow":
@@ -568,6 +569,16 @@ def bar_plan(rng):
     return plan
 
 
+def count_features(ctx: Ctx, case):
+    sup_n, deb_n = {s[0] for s in case.supplies}, {d[0] for d in case.debts}
+    if sup_n & deb_n:
+        ctx.count("feature:same-token-supplied-and-borrowed")
+    if any(s[2] and D(case.rp_over.get(s[0], {}).get("baseLTVasCollateral", "1")) == 0 for s in case.supplies):
+        ctx.count("feature:zero-ltv-collateral-held")
+    if any(L.TOKEN_DECIMALS.get(n.upper()) == 6 for n in sup_n | deb_n):
+        ctx.count("feature:six-decimal-token-held")
+
+
 def run_sequence(ctx: Ctx, rng, reqs, forced=None, bars=False):
     """several calls on ONE market: state and caches carried over, limits checked at the frontier after each; `bars`: the sequence runs over
     several bars (see `bar_plan`), otherwise inside one bar"""
@@ -609,6 +620,7 @@ def run_sequence(ctx: Ctx, rng, reqs, forced=None, bars=False):
     names = list(case.toks)
     done, found = [], []
     cur, minute, quiet_run = dict(case.toks), 0, 0
+    count_features(ctx, case)
     for i in range(nsteps):
         if steps is None:
             kind = plan[i] if plan is not None else "call"
